@@ -64,6 +64,9 @@ def kvGetD (m : KV) (k : Bytes) : Bytes :=
   | some x => x.2
   | none => []
 
+/-- `strings.ToLower` on ASCII text (type and method names) -/
+def toLower (s : Bytes) : Bytes := s.map fun b => if 65 ≤ b ∧ b ≤ 90 then b + 32 else b
+
 /-- `strings.SplitN(s, string(c), 2)`: cut at the first `c` -/
 def splitN2 (s : Bytes) (c : Nat) : List Bytes :=
   match Bytes.indexByte s c with
@@ -306,6 +309,44 @@ structure HEnv (σ ρ η κ : Type) where
   next : σ → κ → List η → σ × κ × Option Panic
   onError : σ → κ → σ × κ × Option Panic
   onPanic : σ → κ → σ × κ × Option Panic
+
+/-- `v, ok := m[k]` on a map from names to handler lists -/
+def kvhGet (m : List (Bytes × List Nat)) (k : Bytes) : List Nat × Bool :=
+  match m.find? (fun x => x.1 == k) with
+  | some x => (x.2, true)
+  | none => ([], false)
+
+/-- a method of a controller as `reflect` shows it to `Router.Resource` -/
+structure CMeth where
+  valid : Bool                                   -- `MethodByName(name).IsValid()`
+  isAction : Bool                                -- its value has the type `func(*Context)`
+  uses : Option (List (Bytes × List Nat))        -- its value has the type `func() map[string][]HandlerFunc`: what it returns
+  deriving Repr, Inhabited
+
+/-- a controller value as `reflect` shows it -/
+structure Ctrl where
+  kind : Int                                     -- `reflect.ValueOf(c).Kind()`
+  elemKind : Int                                 -- `.Elem().Type().Kind()`
+  typeName : Bytes                               -- `.Type().Elem().Name()`
+  method : Bytes → CMeth                         -- `.MethodByName(name)`
+
+/-- the package-level variables `IndexAction` … `DeleteAction` (names of the REST actions) as they stand -/
+structure ActNames where
+  index : Bytes
+  create : Bytes
+  store : Bytes
+  show_ : Bytes
+  edit : Bytes
+  update : Bytes
+  delete : Bytes
+
+/-- what `Router.Resource` does on the router -/
+inductive ResEv
+  | groupEnter (prefix_ : Bytes) (middles : List Nat)
+  | groupLeave
+  | addNamed (name path : Bytes) (methods : List Bytes)
+  | use (routeName : Bytes) (handlers : List Nat)
+  deriving DecidableEq, Repr
 
 /-- the renderers of pkg/render that the context helpers construct -/
 inductive RKind
